@@ -81,7 +81,7 @@ RULE = (f"fault enumeration: runs 0..{NENUM - 1} enumerate every stall point - a
 PROBES = ["stall_in_handshake", "stall_in_request_line", "stall_in_titan_content",
           "complete_request_no_timeout", "late_data_at_boundary", "slow_handler_5T",
           "slow_middleware", "dribble", "stall_after_large_declared_size",
-          "request_as_several_records_in_one_flight", "damaged_stream_then_silence", "ipv6_peer", "chain_undecided_at_deadline_body_incomplete", "refused_upload_with_content_outstanding", "disconnect_near_deadline", "timeout_40_observed", "via_start_server"]
+          "request_as_several_records_in_one_flight", "damaged_stream_then_silence", "ipv6_peer", "wall_clock_stepped_during_the_run", "chain_undecided_at_deadline_body_incomplete", "refused_upload_with_content_outstanding", "disconnect_near_deadline", "timeout_40_observed", "via_start_server"]
 COMPONENTS = {
     "real": ["nauyaca.server.protocol (request timer)", "nauyaca.server.tls_protocol (handshake "
              "phase)", "asyncio sslproto handshake/shutdown timers", "OpenSSL"],
@@ -248,6 +248,12 @@ def run_one(ch):
 
     sim = Sim(ch)
     net = sim.net
+    if phase == 1 and ch.chance("wallstep", 0.15):
+        # the wall clock is stepped while the peer is silent (NTP correction, VM resume):
+        # deadlines are a matter of the monotonic clock
+        dstep = ch.pick("wallstep.d", [-3600.0, -30.0, 30.0, 3600.0])
+        net.step_wall_clock(ch.pick("wallstep.t", [0.5, 10.0, 29.0]), dstep)
+        sc["wallstep"] = dstep
     hresp = GeminiResponse(status=20, meta="text/plain", body="handler response")
     uresp = GeminiResponse(status=20, meta="text/plain", body="upload stored")
     spy = sw.SpyHandler(sim, {"kind": "ret", "delay": sc["hdelay"], "response": hresp})
@@ -500,6 +506,8 @@ def run_one(ch):
         res.stats["dribble"] += 1
     if sc.get("ipv6"):
         res.stats["ipv6_peer"] += 1
+    if sc.get("wallstep"):
+        res.stats["wall_clock_stepped_during_the_run"] += 1
     if sc.get("slowchain"):
         res.stats["chain_undecided_at_deadline_body_incomplete"] += 1
     if sc.get("big_declared"):
